@@ -43,9 +43,31 @@ def field_desc(draw, lo=1, hi=6, off=9, min_size=1):
     return {"data": data, "offset": [draw(st.integers(-off, off)), draw(st.integers(-off, off))]}
 
 
+MOVED = {"n": 0, "seen": 0}
+
+
+def tag_moved(ctx):
+    """tag the case if any of its fields was re-positioned / re-filled after construction"""
+    if ctx is not None and MOVED["n"] > MOVED["seen"]:
+        ctx.tag("field_changed_after_construction")
+    MOVED["seen"] = MOVED["n"]
+
+
 def mk(fd):
     lay = ["C", "F", "strided", "reversed", "transposed_view"][(fd["data"].shape[0] + 3 * fd["data"].shape[1] + int(fd["offset"][0])) % 5]
-    return Field(data=gen.relayout(fd["data"], lay), offset=list(fd["offset"]))
+    sel = (5 * fd["data"].shape[0] + fd["data"].shape[1] + 3 * int(fd["offset"][0]) + int(fd["offset"][1])) % 8
+    if sel >= 2:
+        return Field(data=gen.relayout(fd["data"], lay), offset=list(fd["offset"]))
+    # a field that was re-positioned (sel 0) or given new data of another shape (sel 1) after it was constructed:
+    # `offset` and `data` are public attributes, the field is wherever they say it is now
+    MOVED["n"] += 1
+    if sel == 0:
+        f = Field(data=gen.relayout(fd["data"], lay), offset=[int(fd["offset"][0]) + 11, int(fd["offset"][1]) - 7])
+        f.offset = list(fd["offset"])
+    else:
+        f = Field(data=np.ones((fd["data"].shape[0] + 2, fd["data"].shape[1] + 1), dtype=complex), offset=list(fd["offset"]))
+        f.data = np.asarray(gen.relayout(fd["data"], lay), dtype=complex)
+    return f
 
 
 def render(field):
@@ -80,6 +102,7 @@ def mul(case, ctx):
 
 def _mul_body(a, b, ctx):
     fa, fb = mk(a), mk(b)
+    tag_moved(ctx)
     a0, b0 = a["data"].copy(), b["data"].copy()
     with lentil_call("C06.mul", "Field.__mul__"):
         res = fa * fb
@@ -130,6 +153,7 @@ def merge(case, ctx):
         b = {"data": np.resize(b["data"], a["data"].shape) + 0.5, "offset": list(a["offset"])}
         ctx.tag("identical_footprint")
     fa, fb = mk(a), mk(b)
+    tag_moved(ctx)
     da0, db0 = fa.data.copy(), fb.data.copy()
     sa, sb = a["data"].shape, b["data"].shape
     rel = relation(sa, a["offset"], sb, b["offset"])
@@ -244,6 +268,7 @@ def reduce_(case, ctx):
         case[1] = {"data": np.resize(case[1]["data"], case[0]["data"].shape) - 0.25, "offset": list(case[0]["offset"])}
         ctx.tag("identical_footprint")
     fields = [mk(f) for f in case]
+    tag_moved(ctx)
     if len(case) >= 1 and (int(case[0]["offset"][1]) + 2 * len(case)) % 5 == 0:
         # the very same Field object listed more than once (two wavefronts sharing a field): it counts each time
         j = int(abs(case[0]["offset"][0])) % len(case)
@@ -319,6 +344,7 @@ def _insert_body(case, ctx):
     fd = case["field"]
     tshape = tuple(case["target"])
     f = mk(fd)
+    tag_moved(ctx)
     rng = np.random.default_rng(case["fill_seed"])
     if case["intensity"]:
         out = rng.uniform(-5, 5, size=tshape) if case["prefill"] else np.zeros(tshape)
